@@ -19,6 +19,10 @@ from .common import bound_args, call_name, short
 FLOORS = {'C16.K2': 40}
 
 # world name -> (value of Config.timestep_unit, expected multiplier)
+# unusual spellings: no particular factor is demanded, only agreement of the three sections
+SPELLINGS = [('"Minutes"', 'Minutes', None), ('"HOURS"', 'HOURS', None), ('"hours "', 'hours ', None),
+             ('" minutes"', ' minutes', None), ('True', True, None), ('2.5', 2.5, None)]
+
 WORLDS = [('minutes', 'minutes', 60), ('hours', 'hours', 3600), ('int-7', 7, 7),
           ('int-90', 90, 90), ('seconds', 'seconds', 1), ('other', 'fortnights', 1)]
 
@@ -58,16 +62,18 @@ def check(repo, res, tier):
     res.rule('C16.K2', 'in each world (minutes=60, hours=3600, int n=n, other=1) and on every feasible path each scaled quantity is <its config key> x m, / m, or unscaled, per the table')
     res.assumptions += ['quantities are whole multiples of the unit (float rounding of round() not decided)',
                         'worlds: minutes, hours, two custom integers, seconds, an unknown spelling']
+    agree = {}
     for q, tab in TABLE.items():
         f = repo.func(q)
         paths = cached_paths(f)
         res.analysed(f, len(paths))
         fr = Frame(f)
         # sites: constructor calls and the return tuple
-        for wname, unit, m in WORLDS:
+        for wname, unit, m in WORLDS + SPELLINGS:
             seen_sites = {}
             for p in paths:
                 env = {'self.timestep_unit': unit}
+                aenv = {}       # local name -> Affine, evaluated where it is assigned (flow-sensitive)
                 feasible = True
                 mine = []
                 for e in p.events:
@@ -83,22 +89,30 @@ def check(repo, res, tier):
                         n = e.node
                         if isinstance(n, ast.Assign) and len(n.targets) == 1 and isinstance(
                                 n.targets[0], ast.Name):
+                            nm = n.targets[0].id
                             try:
-                                env[n.targets[0].id] = ceval(n.value, env)
+                                env[nm] = ceval(n.value, env)
                             except Unknown:
-                                env.pop(n.targets[0].id, None)
+                                env.pop(nm, None)
+                            aenv[nm] = affine(canon, unwrap(n.value), fr, dict(aenv, **num_env(env)))
                         elif isinstance(n, ast.AugAssign) and isinstance(n.target, ast.Name):
                             env.pop(n.target.id, None)
                         for site, param, expr, key, direction in sites_in(repo, fr, n, tab):
-                            num_env = {k: Affine({}, Fraction(v)) for k, v in env.items()
-                                       if isinstance(v, (int, float)) and not isinstance(v, bool)
-                                       and k.isidentifier()}
-                            a = affine(canon, unwrap(expr), fr, num_env)
+                            a = affine(canon, unwrap(expr), fr, dict(aenv, **num_env(env)))
                             mine.append(((site, param, key, direction, id(n)), (a, n, p)))
                 if not feasible:
                     continue
                 for k, v in mine:
                     seen_sites.setdefault(k, []).append(v)
+            if m is None:
+                # unusual spelling: no expected factor, but all three sections must agree
+                for (site, param, key, direction, _), vals in seen_sites.items():
+                    if direction != UP:
+                        continue
+                    for a, n, p in vals:
+                        cs = sorted(set(a.terms.values()))
+                        agree.setdefault(wname, {}).setdefault(q, set()).update(cs)
+                continue
             for (site, param, key, direction, _), vals in sorted(
                     seen_sites.items(), key=lambda kv: (kv[0][0], str(kv[0][1]))):
                 want = {UP: Fraction(m), DOWN: Fraction(1, m), SAME: Fraction(1)}[direction]
@@ -125,6 +139,31 @@ def check(repo, res, tier):
                     if not any(k[0] == site and k[1] == param for k in seen_sites):
                         res.bad('C16.K2', f, f.node, '%s %s <- %s %s' % (site, param, key, direction),
                                 'no feasible path in world %s passes %s.%s' % (wname, site, param))
+    spelling_agreement(repo, res, agree)
+
+
+def _finish(repo, res, agree):
+    spelling_agreement(repo, res, agree)
+
+
+def num_env(env):
+    return {k: Affine({}, Fraction(v)) for k, v in env.items()
+            if isinstance(v, (int, float)) and not isinstance(v, bool) and k.isidentifier()}
+
+
+def spelling_agreement(repo, res, agree):
+    f0 = repo.func('Config.parse_instrument_config')
+    for wname, per in sorted(agree.items()):
+        facs = {q: tuple(sorted(v)) for q, v in per.items()}
+        what = 'unit spelling %s: the three sections use the same factor' % wname
+        if len(set(facs.values())) <= 1 and all(len(v) == 1 for v in facs.values()):
+            res.ok('C16.K2', f0, None, what, str(next(iter(facs.values()))))
+        else:
+            res.bad('C16.K2', f0, None, 'sections disagree for unit %s' % wname,
+                    'for the timestep spelling %s the configuration sections scale by different factors (%s): '
+                    'rates, speeds and times are no longer rescaled by the same factor' % (
+                        wname, ', '.join('%s: %s' % (q.split('.')[-1], [str(x) for x in v]) for q, v in sorted(facs.items()))),
+                    what=what)
 
 
 def sites_in(repo, fr, stmt, tab):
